@@ -938,8 +938,9 @@ func (m *Model) audit(exp []*Expect, ig *RawClient) {
 func (m *Model) checkResponse(msg *wire.Msg, dst *RawClient, dstAddr string) {
 	var ri *reqInfo
 	cands := m.reqs[msg.TID]
+	sameParty := func(a, b *RawClient) bool { return a != nil && b != nil && a.Key() == b.Key() }
 	for _, r := range cands {
-		if r.c == dst && r.method == msg.Method {
+		if sameParty(r.c, dst) && r.method == msg.Method {
 			ri = r
 		}
 	}
@@ -950,7 +951,7 @@ func (m *Model) checkResponse(msg *wire.Msg, dst *RawClient, dstAddr string) {
 	switch {
 	case ri == nil:
 		m.Rec.Violate("resp-uncorrelated", "unknown-tid", "response (method %x class %d) to %s carries a transaction id no request used", msg.Method, msg.Class, dstAddr)
-	case dst == nil || ri.c != dst:
+	case dst == nil || !sameParty(ri.c, dst):
 		m.Rec.Violate("resp-wrongdst", "other-party", "response to request of %s was sent to %s", ri.c.Name, dstAddr)
 	case ri.method != msg.Method:
 		m.Rec.Violate("resp-uncorrelated", "method", "response method %x answers request method %x", msg.Method, ri.method)
@@ -1077,7 +1078,7 @@ func emissionMatches(e *Expect, em *emission) bool {
 	if e.Dir == "c2p" {
 		return e.FromRelay == em.FromRelay && e.To == em.To
 	}
-	if e.Client == nil || em.Client != e.Client {
+	if e.Client == nil || em.Client == nil || em.Client.Key() != e.Client.Key() {
 		return false
 	}
 	switch em.Kind {
@@ -1107,7 +1108,7 @@ func (m *Model) explain(exp []*Expect, em *emission) {
 				kind = "fwd-other"
 			}
 			m.Rec.Violate(kind, em.Dir, "datagram relayed although it must be dropped (%s): %s -> %s", e.Reason, e.desc, desc)
-		case e.Dir == "p2c" && em.Client == e.Client:
+		case e.Dir == "p2c" && em.Client != nil && e.Client != nil && em.Client.Key() == e.Client.Key():
 			m.Rec.Violate("emit-misattributed", em.Kind, "payload delivered with wrong attribution: %s -> %s", e.desc, desc)
 		default:
 			m.Rec.Violate("emit-misrouted", em.Dir, "payload left by a wrong route: %s -> %s", e.desc, desc)
